@@ -5,7 +5,12 @@
    C20) is about.  Not one of the 20 properties: it replaces the step "L2's
    files behave like the byte-level files", which used to rest on the L1 law
    plus trace testing, by theorems.  Only statements here; definitions in
-   Link/Abs.v, proofs in Link/AbsFacts1..4.v.
+   Link/Abs.v, proofs in Link/AbsFacts1..4.v.  Sections 1-4: one file.
+   Sections 5-6 (definitions Link/Disk.v, Link/Compose.v; proofs
+   Link/DiskFacts1..3.v, Link/ComposeFacts1..7.v): whole directories (every
+   byte-level action / crash outcome of a disk corresponds to L2's), restarts
+   and failed fsyncs, and the composition with the WAL operations and the crash
+   histories of crash_refinement by a lock-step run of the byte disk.
 
    Vocabulary (Link/Abs.v):
      enc l                 the bytes stored for record l (its BinaryCodec encoding)
@@ -816,7 +821,9 @@ Print Assumptions Link_pending_only_tail.
 
 (* (2) every byte-level crash outcome is covered: after j actions of a call (of
    Open) the byte disk reached is related, and WHATEVER the byte-level adversary
-   leaves, some crash choice cc continues the history, linked after RecoverTail *)
+   leaves, some crash choice cc continues the history, linked after RecoverTail;
+   the invariant GI of crash_refinement holds of the continued history, so the
+   next Open (Link_history_open) and everything after it are covered again *)
 Theorem Link_crash_in_call_covered :
   forall c nb h s o j bd,
     cfg_ok c -> sop_ok o -> nb + 2 < two64 -> GI c nb h -> hs_mode h = Up s -> HL c h bd ->
@@ -826,7 +833,8 @@ Theorem Link_crash_in_call_covered :
     exists bdj, lrun c bd (e_disk (ss_env s)) (firstn j acts) bdj dj /\
       forall out, bcrash bdj out ->
         exists cc, HL c (hstep_run c h (HCrashIn o j cc)) (bscrub c out) /\
-                   hs_mode (hstep_run c h (HCrashIn o j cc)) = Down (crash_disk cc dj).
+                   hs_mode (hstep_run c h (HCrashIn o j cc)) = Down (crash_disk cc dj) /\
+                   GI c (nb + 2) (hstep_run c h (HCrashIn o j cc)).
 Proof. exact crash_in_call_covered. Qed.
 Print Assumptions Link_crash_in_call_covered.
 
@@ -838,7 +846,8 @@ Theorem Link_crash_in_open_covered :
     exists bdj, lrun c bd d (firstn j acts) bdj dj /\
       forall out, bcrash bdj out ->
         exists cc, HL c (hstep_run c h (HCrashInOpen j cc)) (bscrub c out) /\
-                   hs_mode (hstep_run c h (HCrashInOpen j cc)) = Down (crash_disk cc dj).
+                   hs_mode (hstep_run c h (HCrashInOpen j cc)) = Down (crash_disk cc dj) /\
+                   GI c (nb + 2) (hstep_run c h (HCrashInOpen j cc)).
 Proof. exact crash_in_open_covered. Qed.
 Print Assumptions Link_crash_in_open_covered.
 
